@@ -18,14 +18,15 @@ def rand_scalar(rng):
     return rng.choice(["", "a", "b", "ab", "a", "1", "0", "\U0001F600", "é", "true", "null", "a\nb", "x" * rng.randint(0, 3)])
 
 
-def rand_json(rng, depth=3, fan=4, names=None):
+def rand_json(rng, depth=3, fan=4, names=None, top=False):
     names = names or SIMPLE_NAMES
-    if depth <= 0 or rng.random() < 0.3:
+    if depth <= 0 or (not top and rng.random() < 0.3):
         return rand_scalar(rng)
+    lo = 1 if top else 0
     if rng.random() < 0.5:
-        return [rand_json(rng, depth - 1, fan, names) for _ in range(rng.randint(0, fan))]
+        return [rand_json(rng, depth - 1, fan, names) for _ in range(rng.randint(lo, fan))]
     d = {}
-    for _ in range(rng.randint(0, fan)):
+    for _ in range(rng.randint(lo, fan)):
         d[rng.choice(names)] = rand_json(rng, depth - 1, fan, names)
     return d
 
